@@ -23,7 +23,7 @@
    client's mode demands) and which must leave pdb.tx alone (k_rec at the next Stop). Dump resets
    the language of the store; the monitor judges Put/Get under the language in force.
    All theorems quantify over every key context c, every initial content, every operation
-   sequence (Put/Get/Start/Stop/Abort/Close/Dump) and EVERY fault oracle (any number of faults). *)
+   sequence (Put/Get/Start/Stop/Abort/Close/Dump/Connect-again) and EVERY fault oracle (any number of faults). *)
 From Vise Require Import Bytes Errors Consts PgTx PgProofs.
 Local Open Scope N_scope.
 
